@@ -142,7 +142,7 @@ def main(tier):
     ev.cov["rule"] = RULE
     ev.assumptions = ["worker threads live for the whole runner process, i.e. across cases and across every engine of a case (thread-local state of dead engines is therefore still around)",
                       "operations of one history are executed one at a time (concurrency is C13's subject)"]
-    n = 1600 if tier == "quick" else 80000
+    n = 1600 if tier == "quick" else 30000
     failures = hyp.run("c14", ev, tier, n)
     confirmed = hyp.confirm("c14", failures, PID)
     for p, what in confirmed:
